@@ -15,10 +15,41 @@ GenCfgsThorough ==
 GStatement(cfgs) ==
     /\ status = "parse"
     /\ cfg' \in cfgs
+    /\ inner' = NoInner
     /\ status' = "compile"
-    /\ UNCHANGED <<ledger, pc, entries, report>>
-GNext == GStatement(GenCfgs) \/ (status # "parse" /\ Next)
-GNextThorough == GStatement(GenCfgsThorough) \/ (status # "parse" /\ Next)
+    /\ UNCHANGED <<ledger, pc, entries, report, tab, sub>>
+
+(* Nested statements  ... FROM <clauses> WHERE account IN (SELECT account FROM <filter> <clauses>)  on the ledgers whose
+   transactions differ in date and accounts.  Only the subqueries whose selection the statement determines (no clause: the
+   plain ledger -- with every filter expression; clauses: with the filters that pass no synthetic transaction) and the
+   rejected ones (CLOSE before OPEN inside the subquery). *)
+Emittable(x) == InnerDetermined(x.c) \/ Rejected(x.c)
+GenNested(name) ==
+    CASE name = "quick" ->
+            [cfgs |-> [open : Open03, close : Close04, clear : BOOLEAN, filter : {NoFilter}],
+             inners |-> { x \in InnersOf(Open03, Close04, FAll) \cup InnersOf({3}, {2}, {NoFilter}) :
+                            /\ Emittable(x)
+                            /\ HasClauses(x.c) =>
+                                 <<x.c.open, x.c.close, x.c.clear>> \in
+                                    {<<3, -1, FALSE>>, <<0, 4, FALSE>>, <<0, -1, TRUE>>, <<3, 4, TRUE>>, <<3, 0, FALSE>>, <<3, 2, FALSE>>} }]
+      [] name = "thorough" ->
+            [cfgs |-> [open : Open03, close : Close04, clear : BOOLEAN, filter : {NoFilter, F("ge", 3), F("nott", 1)}],
+             inners |-> { x \in InnersOf(Open03, Close024, FAll) : Emittable(x) }]
+\* the ledgers (among those of the replay) the nested statements are run on: transactions that differ in date and accounts
+NestedLedger(name, l) ==
+    CASE name = "quick" -> \/ Len(l) = 2 /\ l[1].date < l[2].date /\ l[1].ps # l[2].ps
+                           \/ Len(l) = 3 /\ l[2].date = 3 /\ l[1].ps = Templates[5]
+      [] name = "thorough" -> \/ Len(l) = 2 /\ l[1].date = 2 /\ l[2].date = 5 /\ l[1].ps # l[2].ps
+                              \/ Len(l) = 3 /\ l[1].date = 2 /\ l[2].date = 3 /\ l[3].date = 5
+GNested(name) ==
+    /\ status = "parse"
+    /\ NestedLedger(name, ledger)
+    /\ cfg' \in GenNested(name).cfgs
+    /\ inner' \in GenNested(name).inners
+    /\ status' = "compile"
+    /\ UNCHANGED <<ledger, pc, entries, report, tab, sub>>
+GNext == GStatement(GenCfgs) \/ GNested("quick") \/ (status # "parse" /\ Next)
+GNextThorough == GStatement(GenCfgsThorough) \/ GNested("thorough") \/ (status # "parse" /\ Next)
 
 \* ledgers for the replay (x 156 statements each in the quick grid, x 352 in the thorough one)
 GenLedgerSet(name) ==
@@ -48,11 +79,16 @@ Emit ==
             ledger |-> [i \in 1..Len(ledger) |-> [date |-> ledger[i].date, t |-> ledger[i].t, flag |-> ledger[i].flag,
                                                  ps |-> ledger[i].ps]],
             c |-> cfg,
+            sub |-> inner,
             status |-> status,
-            kept |-> IF status = "done" THEN CoreOut(ExpectKept(LP, cfg)) ELSE <<>>,
+            kept |-> IF status # "done" THEN <<>>
+                     ELSE IF inner.on THEN CoreOut(ExpectKeptN(KeyTab, LP, cfg, inner.c)) ELSE CoreOut(ExpectKept(LP, cfg)),
             cmp |-> SynthPass(cfg.filter) # "some",
-            tot |-> IF status = "done" THEN ExpectTotals(KeyTab, LP, cfg) ELSE <<>>,
-            val |-> IF status = "done" THEN [i \in 1..Len(CurSeq) |-> <<CurSeq[i], ExpectValue(KeyTab, LP, cfg, CurSeq[i])>>]
+            tot |-> IF status # "done" THEN <<>>
+                    ELSE IF inner.on THEN ExpectTotalsN(KeyTab, LP, cfg, inner.c) ELSE ExpectTotals(KeyTab, LP, cfg),
+            \* the value at cost of the rows a WHERE clause picks is not determined (Equity rows are picked by account)
+            val |-> IF status = "done" /\ ~inner.on
+                    THEN [i \in 1..Len(CurSeq) |-> <<CurSeq[i], ExpectValue(KeyTab, LP, cfg, CurSeq[i])>>]
                     ELSE <<>>]))
 
 EmitKeys == status = status /\ PrintT(ToJson([keys |-> KeyTab, special |-> Special, curs |-> CurSeq, base |-> Base]))
